@@ -6,6 +6,7 @@ import (
 	"fmt"
 	"go/ast"
 	"go/constant"
+	"go/token"
 	"go/types"
 	"golang.org/x/tools/go/packages"
 	"sort"
@@ -141,8 +142,14 @@ func defaultRow(rows []caseRow) (caseRow, bool) {
 }
 
 func rowVal(r caseRow) string {
-	if len(r.Return) > 0 {
-		return r.Return[len(r.Return)-1]
+	if n := len(r.Return); n > 0 {
+		// (value, found) results: the trailing flag is not the value
+		for i := n - 1; i >= 0; i-- {
+			if r.Return[i] != "true" && r.Return[i] != "false" {
+				return r.Return[i]
+			}
+		}
+		return r.Return[n-1]
 	}
 	for _, v := range r.Assign {
 		return v
@@ -431,10 +438,17 @@ func c11Tables(p *Prog, r *Report) {
 				}
 			}
 		}
-		ok, _, st := f.GatedBy(sites[0], sw)
-		r.Check(ok && len(sw) > 0, "C11.a", kAdClientErr+"#details-first", p.pos(sites[0].Call), "status code consulted only when the details gave no verdict",
-			"the status code is consulted although the details already gave a verdict ("+strings.Join(st, ",")+")")
-		f.SiteConsumed(r, "C11.a", kAdClientErr+"#details-verdict-returned", ce, sites[0], flowOpts{Class: true})
+		if flagOK, verdictReturned, handled := c11VerdictByFlag(p, f, ce, sites[0], sw); handled {
+			// the details answer (error, found): the flag decides, the error is returned as it is
+			r.Check(flagOK && len(sw) > 0, "C11.a", kAdClientErr+"#details-first", p.pos(sites[0].Call), "status code consulted only when the details gave no verdict (found = false)",
+				"the status code is consulted although the details already gave a verdict (the found flag is true)")
+			r.Check(verdictReturned, "C11.a", kAdClientErr+"#details-verdict-returned", p.pos(sites[0].Call), "the verdict of the details is returned as it is", "the verdict of the details is not what ClientError returns when they gave one")
+		} else {
+			ok, _, st := f.GatedBy(sites[0], sw)
+			r.Check(ok && len(sw) > 0, "C11.a", kAdClientErr+"#details-first", p.pos(sites[0].Call), "status code consulted only when the details gave no verdict",
+				"the status code is consulted although the details already gave a verdict ("+strings.Join(st, ",")+")")
+			f.SiteConsumed(r, "C11.a", kAdClientErr+"#details-verdict-returned", ce, sites[0], flowOpts{Class: true})
+		}
 	}
 	// server attaches the details computed from the very error
 	se := p.Func(kAdErr)
@@ -1404,4 +1418,76 @@ func c11Framing(p *Prog, r *Report) {
 		}
 	}
 	r.Check(same && pos > 0, "C11.f", "chunk-size", "", fmt.Sprintf("client writers and server reader use %v = %s", sizes, val), fmt.Sprintf("chunk sizes differ or are not a positive constant: %v", sizes))
+}
+
+// c11VerdictByFlag handles `verdict, found := details(..)`: the nodes in sw (the status-code path) are reachable
+// only on the found = false edge, and on the found = true edge the verdict itself is returned.
+func c11VerdictByFlag(p *Prog, f *Flat, fi *FuncInfo, site callSite, sw []int) (gated, returned, handled bool) {
+	info := fi.Pkg.TypesInfo
+	as, ok := f.Nodes[site.Node].Ast.(*ast.AssignStmt)
+	if !ok || len(as.Lhs) != 2 || len(as.Rhs) != 1 || ast.Unparen(as.Rhs[0]) != site.Call {
+		return false, false, false
+	}
+	verdict, flag := objOf(info, as.Lhs[0]), objOf(info, as.Lhs[1])
+	if verdict == nil || flag == nil || !isErrorType(verdict.Type()) {
+		return false, false, false
+	}
+	if b, ok := flag.Type().Underlying().(*types.Basic); !ok || b.Info()&types.IsBoolean == 0 {
+		return false, false, false
+	}
+	// edges on which the flag is true
+	var trueStarts, falseStarts []int
+	for _, n := range f.Nodes {
+		if !n.IsCond {
+			continue
+		}
+		e := ast.Unparen(n.Ast.(ast.Expr))
+		neg := false
+		if u, ok := e.(*ast.UnaryExpr); ok && u.Op == token.NOT {
+			e, neg = ast.Unparen(u.X), true
+		}
+		if objOf(info, e) != flag {
+			continue
+		}
+		for _, ed := range n.Succs {
+			isTrue := (ed.Label == 1) != neg
+			if isTrue {
+				trueStarts = append(trueStarts, ed.To)
+			} else {
+				falseStarts = append(falseStarts, ed.To)
+			}
+		}
+	}
+	if len(trueStarts) == 0 {
+		return false, false, true // the flag is never tested: the status path is not gated by the verdict
+	}
+	fromTrue := f.Reach(trueStarts, nil, nil)
+	gated = true
+	for _, id := range sw {
+		if fromTrue[id] {
+			gated = false
+		}
+		// and not reachable without the test at all
+		tests := map[int]bool{}
+		for _, n := range f.Nodes {
+			if n.IsCond && usesObj(info, n.Ast, flag) {
+				tests[n.ID] = true
+			}
+		}
+		if !f.MustPrecede(tests, id) {
+			gated = false
+		}
+	}
+	// on the found edge every return returns the verdict
+	returned = true
+	any := false
+	for id := range fromTrue {
+		if rs := f.returnStmt(id); rs != nil && len(rs.Results) == 1 {
+			any = true
+			if objOf(info, rs.Results[0]) != verdict {
+				returned = false
+			}
+		}
+	}
+	return gated, returned && any, true
 }
